@@ -242,7 +242,10 @@ def gen_fileset(rng, nfiles=None, nstructs=None, nifaces=None, depth=None, allow
                     base = rng.choice(ctx.vis_ifaces())
                 decls.append(gen_iface(ctx, ctx.fresh("I"), base, allow_obj_struct=allow_obj_struct))
         files.append({"path": path, "includes": incs, "decls": decls})
-    return prune_unreachable({"files": files, "main": "main.idl", "idirs": []}), ctx
+    fs = prune_unreachable({"files": files, "main": "main.idl", "idirs": []})
+    if rng.random() < 0.5:
+        share_member_names(rng, fs)
+    return fs, ctx
 
 
 def prune_unreachable(fs):
@@ -551,3 +554,41 @@ def reorder_structs(rng, fs):
                     forward = True
                 seen.add(d[1])
     return forward
+
+
+ERR_POOL = ["E_BUSY", "E_FULL", "E_DENIED", "E_AGAIN", "E_GONE"]
+KON_POOL = ["K_MAX", "K_MIN", "K_LIMIT", "K_VERSION"]
+
+
+def share_member_names(rng, fs, prob=0.6):
+    """errors and constants of different interfaces get the same names (drawn from small pools)
+    wherever that is legal: a name must stay unique along every inheritance chain, so an interface
+    avoids the names of its ancestors; unrelated interfaces and siblings may and do share names,
+    at different positions."""
+    allif = {d[1]: d for f in fs["files"] for d in f["decls"] if d[0] == "iface"}
+    taken = {}          # interface -> names used by it and its ancestors
+    for f in fs["files"]:
+        for i, d in enumerate(f["decls"]):
+            if d[0] != "iface":
+                continue
+            anc = set()
+            b = d[2]
+            while b is not None and b in allif:
+                anc |= taken.get(b, set())
+                b = allif[b][2]
+            own = {m[1] if m[0] in ("method", "error") else m[2] for m in d[3]}
+            ms = []
+            for m in d[3]:
+                if m[0] == "error" and rng.random() < prob:
+                    c = [n for n in ERR_POOL if n not in anc and n not in own]
+                    if c:
+                        n = rng.choice(c); own.discard(m[1]); own.add(n); m = ("error", n)
+                elif m[0] == "const" and rng.random() < prob:
+                    c = [n for n in KON_POOL if n not in anc and n not in own]
+                    if c:
+                        n = rng.choice(c); own.discard(m[2]); own.add(n); m = ("const", m[1], n, m[3])
+                ms.append(m)
+            taken[d[1]] = anc | own
+            f["decls"][i] = ("iface", d[1], d[2], ms)
+            allif[d[1]] = f["decls"][i]
+    return fs
